@@ -19,7 +19,9 @@ from mc import explore, report, gen_values as gv
 from mc.env import ezspenv
 from mc.vloop import VLoop
 
-CMD_TIMEOUT = 10.0   # EZSP_CMD_TIMEOUT, hard-coded in the oracle
+from mc import tunables
+
+CMD_TIMEOUT = tunables.ezsp_cmd_timeout()   # "the command timeout": bellows' tunable, not fixed by the property
 EPS = 1e-9
 PRIO = {"setExtendedTimeout": -1, "getEui64": 0, "getNodeId": 0, "getValue": 999, "readCounters": 999,
         "getConfigurationValue": 0, "nop": 999, "setSourceRoute": -1}
@@ -614,7 +616,7 @@ def main(tier: str) -> int:
     }
     rep.assumptions = [
         "callback frames carry the sequence number of the last command the NCP answered (real firmware behaviour); a reply to a request whose caller already timed out or was cancelled may be dropped",
-        "the 10 s command timeout is hard-coded in the oracle; each caller uses a distinct command so that requests can be attributed",
+        "the command timeout is read from bellows.ezsp.protocol.EZSP_CMD_TIMEOUT (a tunable the property names but does not fix); each caller uses a distinct command so that requests can be attributed",
     ]
     return rep.finish()
 
